@@ -1,6 +1,7 @@
 (** C18 — Printed durations, sizes and throughputs are truthful truncations.
     Statements only; each closed by [exact] of a lemma in Proofs/Fmt*.v. *)
-From DivanV Require Import Base.Res Generated.Consts Model.FmtF64 Model.FmtDuration Model.FmtScale.
+From DivanV Require Import Base.Res Generated.Consts Model.FmtF64 Model.FmtDuration Model.FmtScale
+  Proofs.FmtF64 Proofs.FmtDuration.
 Local Open Scope N_scope.
 
 (** Obligations on the generated constants: the code's tables are the ones the
@@ -22,3 +23,102 @@ Proof. reflexivity. Qed.
 
 Theorem C18_starts_binary : scale_starts_binary = spec_starts true.
 Proof. reflexivity. Qed.
+
+(** * Durations *)
+
+(** For EVERY picosecond value [p] (all of [N], in particular all of u128):
+    [Display] prints the numeral of [p / u] truncated toward zero to
+    [k = max 0 (4 - d)] decimal places ([render_fix t k] is the canonical
+    numeral of [t / 10^k]: integer digits in full, no trailing zeros, no
+    exponent — see [C18_numeral_meaning]), a space, and the suffix of [u],
+    where [u] is the unit of [C18_unit_largest] and [d] the number of integer
+    digits of [floor (p / u)] ([C18_digit_count]). *)
+Theorem C18_duration_trunc : forall p,
+  let '(u, suffix) := spec_unit 4 p in
+  let d := len (digits_of (p / u)) in
+  let k := 4 - d in
+  fmt_duration p = FOk (render_fix (p * 10 ^ k / u) k ++ [ch_space] ++ suffix).
+Proof. exact duration_trunc. Qed.
+Print Assumptions C18_duration_trunc.
+
+(** The unit: one of ps ns µs ms s m h d; the largest not exceeding [p];
+    values below 1 ns are shown in ns (by default; in ps when at most 3
+    significant figures are requested). *)
+Theorem C18_unit_largest : forall sig p,
+  In (spec_unit sig p) spec_units /\
+  (1000 <= p -> fst (spec_unit sig p) <= p /\
+                forall u, In u spec_units -> fst u <= p -> fst u <= fst (spec_unit sig p)) /\
+  (p < 1000 -> spec_unit sig p = if 3 <? sig then spec_ns else spec_ps).
+Proof. exact spec_unit_largest. Qed.
+Print Assumptions C18_unit_largest.
+
+(** [digits_of n] is the decimal numeral of [n] (so the fuel of its definition
+    never runs out), and its length is the number of integer digits. *)
+Theorem C18_digits_of_correct : forall n,
+  canon (digits_of n) /\ val (digits_of n) = n.
+Proof. exact digits_of_spec. Qed.
+Print Assumptions C18_digits_of_correct.
+
+Theorem C18_digit_count : forall n,
+  n < 10 ^ len (digits_of n) /\ (0 < n -> 10 ^ (len (digits_of n) - 1) <= n).
+Proof. exact digits_of_len_bounds. Qed.
+Print Assumptions C18_digit_count.
+
+(** What "the numeral of [a/b] truncated to [max 0 (sig - d)] places" means,
+    stated on the parsed string over integers ([numeral_sb]): a canonical
+    integer part equal to [floor (a/b)], optionally '.' and at most [sig - d]
+    fraction digits not ending in '0', whose value is [floor (a 10^k / b) / 10^k]
+    exactly, and nothing else.  There is exactly one such string. *)
+Theorem C18_numeral_meaning : forall s a b sig, b <> 0 ->
+  (numeral_sb s a b sig = true <-> s = trunc_numeral a b sig).
+Proof. exact numeral_sb_spec. Qed.
+Print Assumptions C18_numeral_meaning.
+
+(** The same for the precision / width forms, for up to 7 significant figures
+    (the table printer uses the default form only; for more than 7 figures the
+    pre-scaled integer can exceed 2^53 and, from 11 on, overflow u128 in the
+    float path: outside the model's float assumption, see FInexact). *)
+Theorem C18_duration_with_trunc : forall prec width p,
+  sig_of prec <= 7 ->
+  let sig := sig_of prec in
+  let '(u, suffix) := spec_unit sig p in
+  let d := len (digits_of (p / u)) in
+  let k := sig - d in
+  fmt_duration_with prec width p =
+  FOk (fill_to width (render_fix (p * 10 ^ k / u) k ++ [ch_space] ++ suffix)).
+Proof. exact duration_with_trunc. Qed.
+Print Assumptions C18_duration_with_trunc.
+
+(** Formatting never panics for any picosecond value, and on the float path
+    the 128-bit product cannot overflow and the integer converted to [f64] is
+    below 10^15 < 2^53 (so the conversion is exact). *)
+Theorem C18_total : forall p, exists s, fmt_duration p = FOk s.
+Proof. exact fmt_duration_total. Qed.
+Print Assumptions C18_total.
+
+Theorem C18_total_with : forall prec width p, sig_of prec <= 7 ->
+  exists s, fmt_duration_with prec width p = FOk s.
+Proof. exact fmt_duration_with_total. Qed.
+Print Assumptions C18_total_with.
+
+Theorem C18_no_overflow : forall sig p, sig <= 7 -> p < day_v * 10 ^ sig ->
+  p * pow10_sat128 sig < 2 ^ 128.
+Proof. exact float_path_no_overflow. Qed.
+Print Assumptions C18_no_overflow.
+
+Theorem C18_float_operand_exact : forall p, p < day_v * 10 ^ 4 ->
+  p * 10 ^ 4 / fst (spec_unit 4 p) < 10 ^ 15 /\ 10 ^ 15 < 2 ^ 53.
+Proof. exact float_operand_small. Qed.
+Print Assumptions C18_float_operand_exact.
+
+(** The boolean specification evaluated on the implementation's outputs says
+    exactly "the output is the specified string", and the model satisfies it. *)
+Theorem C18_duration_sb_meaning : forall sig width p out,
+  duration_sb sig width p out = true <-> out = FOk (spec_duration_string sig width p).
+Proof. exact duration_sb_spec. Qed.
+Print Assumptions C18_duration_sb_meaning.
+
+Theorem C18_duration_model_sb : forall prec width p, sig_of prec <= 7 ->
+  duration_sb (sig_of prec) width p (fmt_duration_with prec width p) = true.
+Proof. exact duration_model_sb. Qed.
+Print Assumptions C18_duration_model_sb.
